@@ -594,7 +594,10 @@ impl Wk<'_> {
                 if p.is_model() || (own && !p.msg.contains("(selftest)")) {
                     self.ctx.inconclusive(&format!("harness panic in {reader}: {} @ {}", p.msg, p.loc));
                 } else {
-                    let sig = format!("C08|{}|panic|{}|{}", family(reader), panic_file(&p), norm_msg(&p.msg));
+                    // keyed on the decoding core and the SOURCE FILE of the panic: the set of
+                    // (file, message) pairs kept growing by about one per fresh seed, the set of
+                    // panicking files does not; the message stays in the witness text
+                    let sig = format!("C08|{}|panic|{}", family(reader), panic_file(&p));
                     let d = self.detail(cur, reader, &format!("reader panicked: {} @ {}", p.msg, p.loc));
                     self.ctx.violation(&sig, d);
                 }
@@ -724,7 +727,7 @@ impl Wk<'_> {
                     self.ctx.inconclusive(&format!("validator: {} @ {}", p.msg, p.loc));
                     return Out::Ok;
                 }
-                let sig = format!("C08|{}|invalid-panic|{}|{}", family(reader), panic_file(&p), norm_msg(&p.msg));
+                let sig = format!("C08|{}|invalid-panic|{}", family(reader), panic_file(&p));
                 let d = self.detail(cur, reader, &format!("reader returned Ok but validating / reading the returned arrays panicked: {} @ {}", p.msg, p.loc));
                 self.ctx.violation(&sig, d);
                 Out::Invalid
